@@ -606,6 +606,10 @@ ARGV_TABLE = [
     (["--output", "pretty", "s.json"], {"output": "pretty", "error_format": None}),
     (["--base-uri", "http://x/y/", "s.json"], {"base_uri": "http://x/y/"}),
     (["--base-uri", "@base", "s.json"], {"base_uri": "@base"}),
+    # a base URI is used as written: percent-escapes, spaces, non-ASCII and characters outside RFC 3986 are the caller's
+    (["--base-uri", "file:///srv/shared%20schemas/", "s.json"], {"base_uri": "file:///srv/shared%20schemas/"}),
+    (["--base-uri", "http://h/a b/\u00e9/%25/?q=1&r=[2]#frag", "s.json"], {"base_uri": "http://h/a b/\u00e9/%25/?q=1&r=[2]#frag"}),
+    (["--base-uri", "", "s.json"], {"base_uri": ""}),
     (["s.json", "-i", "a.json"], {"schema": "s.json", "instances": ["a.json"]}),
     (["--", "-odd-name.json"], {"schema": "-odd-name.json"}),
 ]
@@ -678,6 +682,66 @@ def rule_argv(ctx, rid="R19.10"):
         r.ok(site(f), "%d command lines parsed by the module's own parser (built inside the interpreter against argparse): every value arrives as written" % len(ARGV_TABLE))
     else:
         r.fail("%s|argv" % f.qual, site(f), sem)
+    return r
+
+
+def rule_main_exit_status(ctx, rid="R19.11"):
+    """`python -m jsonschema` and the console script end with run()'s status: main() hands run()'s return value to sys.exit, and
+    __main__.py calls main().  Evaluated by sa/tokeval.py with run() and parse_args() replaced by stand-ins (run answers 7) and a
+    recording sys.exit."""
+    from ..tokeval import Ev, Undecided, PyRaise, _ModScope
+    prog = ctx.prog
+    r = ctx.rule(rid, "the process exit status is run()'s return value: through main(), and through `python -m jsonschema`", floor=2)
+
+    def world():
+        ev = Ev(prog, fuel=20000)
+        seen = {"exit": [], "run": [], "parse": []}
+
+        class _Sys:
+            argv = ["jsonschema", "-i", "a.json", "s.json"]
+            stdout = stderr = stdin = None
+
+            @staticmethod
+            def exit(code=0):
+                seen["exit"].append(code)
+                raise PyRaise("SystemExit", repr(code))
+        ev.ext["sys"] = _Sys
+        ev.override_func("cli.run", lambda *a, **k: (seen["run"].append((a, k)), 7)[1])
+        ev.override_func("cli.parse_args", lambda *a, **k: (seen["parse"].append((a, k)), {"parsed": True})[1])
+        return ev, seen
+    main = prog.funcs.get("cli.main")
+    mm = prog.mods.get("__main__")
+    for label, target in (("cli.main", main), ("__main__", mm)):
+        where = site(main) if label == "cli.main" and main is not None else "jsonschema/__main__.py"
+        if target is None:
+            r.fail("%s|vanished" % label, where, "%s vanished" % label)
+            continue
+        try:
+            ev, seen = world()
+            try:
+                if label == "cli.main":
+                    ev.call_func(main, [], {"args": ["-i", "a.json", "s.json"]})
+                else:
+                    body = [st for st in mm.tree.body if not isinstance(st, (ast.Import, ast.ImportFrom, ast.FunctionDef, ast.ClassDef))]
+                    ev.block(body, {}, _ModScope(mm))
+            except PyRaise as pr:
+                if pr.name != "SystemExit":
+                    r.fail("%s|exit-status|raises" % label, where, "%s raises %s (%s)" % (label, pr.name, pr.msg))
+                    continue
+        except Undecided as u:
+            r.ok(where, "NOT DECIDED: %s" % u)
+            r.note(where, "%s not decided for %s" % (rid, label))
+            continue
+        if len(seen["run"]) != 1:
+            r.fail("%s|exit-status|run-calls" % label, where, "%s calls run() %d times" % (label, len(seen["run"])))
+        elif seen["exit"] != [7]:
+            r.fail("%s|exit-status|dropped" % label, where,
+                   "%s: run() returned 7 and the process exit status is %s: a failing validation ends with status 0" % (
+                       label, "never set (sys.exit not called)" if not seen["exit"] else "set to %r" % (seen["exit"],)))
+        elif seen["parse"] and seen["run"][0][1].get("arguments", seen["run"][0][0][0] if seen["run"][0][0] else None) != {"parsed": True}:
+            r.fail("%s|exit-status|arguments" % label, where, "%s does not hand parse_args()'s result to run()" % label)
+        else:
+            r.ok(where, "sys.exit(run(parse_args(...))): the stand-in status 7 arrives at sys.exit")
     return r
 
 
@@ -814,6 +878,10 @@ def run(ctx):
         rule_cli_table(ctx, sem)
         rule_options(ctx)
         rule_argv(ctx)
+        rule_main_exit_status(ctx)
+        # R19.12: the class named on the command line is the one that validates (C19-r6m2)
+        from .c20 import rule_named_class
+        rule_named_class(ctx, "R19.12")
         return
     if sem is not None and "raises" in sem:
         # a command line of the table on which run() does not return at all: that is a finding of its own, whatever the CFG rules
@@ -836,6 +904,9 @@ def _structural(ctx):
     rule_streams(ctx)
     rule_options(ctx)
     rule_argv(ctx)
+    rule_main_exit_status(ctx)
+    from .c20 import rule_named_class
+    rule_named_class(ctx, "R19.12")
     rule_parse_failures(ctx)
     rule_validator_built_once(ctx)
     # R19.9: an explicit --validator always wins (the CLI half of C20's R20.3)
